@@ -128,6 +128,7 @@ pub fn run_prepared(p: &Prepared, plan: &FaultPlan, chunk: Chunking) -> Outcome 
             chunk,
             budget: BUDGET,
             via: p.via,
+            root_with_dir: p.root_data.len() % 2 == 1,
         });
     }
     run_job(&Job {
